@@ -41,6 +41,38 @@ def affine(facts, f, defs, op, depth=0):
     return ("?", 0)
 
 
+def _delegated(facts, f, vop, off):
+    """-> (ok, why) when f hands its work to one private method of DocumentOrder with literal bool arguments, else None"""
+    import guards
+    import idxproof
+    calls = [m for m in walk(f["body"]) if m.get("k") == "MethodCall" and (m.get("rid") or m.get("id")) in facts.fns
+             and facts.fns[m.get("rid") or m.get("id")].get("impl_self") == "DocumentOrder"
+             and facts.fns[m.get("rid") or m.get("id")]["path"].split("::")[-1] not in ("get", "remove", "push")]
+    if len(calls) != 1:
+        return None
+    h = facts.fns[calls[0].get("rid") or calls[0].get("id")]
+    flags = [a.get("v") for a in calls[0].get("args", []) if a.get("k") == "Lit" and a.get("t") == "bool"]
+    bl = idxproof._bool_params(h)
+    if not bl or len(flags) != len(bl) or "body" not in h:
+        return None
+    r = idxproof.order_slot(facts, h, None, vop)
+    if not r or tuple(flags) not in r:
+        return None
+    a, g = r[tuple(flags)]
+    why = []
+    if a != ("call:get", off):
+        why.append("index is %s%+d, expected get(id)%+d" % (a[0], a[1], off))
+    if not g:
+        why.append("not guarded by get(id) > 0")
+    if vop == "insert":
+        seq = [n for n, _ in guards.ordered(h["body"]) if n.get("k") == "MethodCall" and isinstance(n.get("recv"), dict)
+               and (n["recv"].get("name") == "self" or n.get("m") == vop)]
+        names = [n["m"] for n in seq]
+        if "remove" not in names or names.index("remove") > min(names.index(x) for x in ("get", vop) if x in names):
+            why.append("the old key of the node is not removed (DocumentOrder::remove) before the position is looked up and the new key inserted")
+    return (not why, why)
+
+
 def c14_4(facts, res, rule="C14-4"):
     """Affine index expressions of the three DocumentOrder updates and of get()."""
     # ---- C14-4 affine index
@@ -53,6 +85,17 @@ def c14_4(facts, res, rule="C14-4"):
         vc = c12.calls(facts, f, lambda n, v=vop: n == "std::vec::Vec::<T, A>::" + v)
         ok = len(vc) == 1
         why = []
+        if not vc:
+            # the update is delegated to a private helper that is told by flags which side to take
+            # (`self.insert_beside(id, info, true)`): the helper is read on the typed tree under the flags this caller passes
+            dv = _delegated(facts, f, vop, off)
+            if dv is not None:
+                ok, why = dv
+                res.oblige(1, ok)
+                res.sample({"rule": rule, "fn": f["path"], "index": "get(id)%+d (through a flag-parameterised helper)" % off, "verdict": "ok" if ok else why})
+                if not ok:
+                    res.add(Finding(rule, name, "%s: %s" % (f["path"], "; ".join(why)), f["file"], f["line"], {}))
+                continue
         if ok:
             bi, t = vc[0]
             a = affine(facts, f, defs, t["args"][1])
@@ -80,7 +123,8 @@ def c14_4(facts, res, rule="C14-4"):
             res.add(Finding(rule, name, "%s: %s" % (f["path"], "; ".join(why)), f["file"], f["line"], {}))
     # get = position + 1
     f = facts.fn("xml_info::DocumentOrder::get")
-    clo = [x for x in facts.fns.values() if x.get("parent") == f["path"]]
+    # `.position(..).map(|v| v + 1)` keeps the increment in a closure, `for (i, w) in ..enumerate() { .. return i + 1 }` in get itself
+    clo = [x for x in facts.fns.values() if x.get("parent") == f["path"]] + [f]
     okg = False
     for c in clo:
         for b in facts.blocks(c):
@@ -213,7 +257,7 @@ def run(facts, tier):
     c06.r06_3(facts, res, "C14-6")
     res.functions_analysed = 12
     import staleidx
-    staleidx.rule(facts, res, "C14-7", lambda f: f["crate"] in ("xml_info", "xml_dom"), floor=7)
+    staleidx.rule(facts, res, "C14-7", lambda f: f["crate"] in ("xml_info", "xml_dom"), floor=5)
     c14_8(facts, res)
     # "selects, orders and de-duplicates exactly as on a fresh parse": queries order by the order *key* (not by creation id)
     from props import c07
